@@ -637,7 +637,8 @@ Section Model.
                       end
                   | _ => LPanic PUnexpectedLiteral
                   end
-              | 11%nat =>                                   (* (Int, Adt Enum): the member whose discriminant is i *)
+              | 11%nat =>                                   (* (Int, Adt Enum): the member whose discriminant is i, named by its own path
+                                                               (LitTable.enum_number_member_path): `Enum::NAME` = Self(i) *)
                   match l, ty' with
                   | LInt z, CAdt n =>
                       match item n with
